@@ -488,6 +488,21 @@ def gen_cases(seed, count, exhaustive=True):
                      (b"'\\x4Z'", b"\x40"), (b"''''", b"'"), (b"'\"'", b"\""), (b"'a\nb'", b"a\nb"),
                      (b"'\xc3\xa9'", b"\xc3\xa9"), (b"'\x00'", b"\x00")]:
         cases.append(("str-alt", t_str(val), src))
+    # control characters written RAW between the quotes (only ' and \\ escaped): every single one, every pair of them, and
+    # each next to a letter -- the value must survive the lexer byte for byte (CR LF, TAB, VT, ESC, DEL ...)
+    ctl = [c for c in range(1, 32)] + [127]
+    def rawsrc(v):
+        return b"'" + v.replace(b"\\", b"\\\\").replace(b"'", b"\\'") + b"'"
+    for a in ctl:
+        for v in (bytes([a]), b"a" + bytes([a]) + b"b", bytes([a]) + b"x", b"x" + bytes([a])):
+            cases.append(("str-rawctl", t_str(v), rawsrc(v)))
+        for b in ctl:
+            v = b"a" + bytes([a, b]) + b"b"
+            cases.append(("str-rawctl2", t_str(v), rawsrc(v)))
+    for v in (b"line1\r\nline2", b"\r\n", b"a\r\n\r\nb", b"\n\r", b"tab\there\r\n", b"\r", b"x\r\ny'z\\"):
+        for t in nestings(t_str(v)):
+            cases.append(("str-rawctl-fixed", t, None))
+        cases.append(("str-rawctl-fixed", t_str(v), rawsrc(v)))
     # the decoding table, one escape at a time: '<a>\c<b>' for every ASCII c, and \xHH in both digit cases
     named = {0x6E: 10, 0x74: 9, 0x72: 13, 0x30: 0, 0x61: 7, 0x62: 8, 0x66: 12, 0x76: 11, 0x65: 27, 0x5C: 92, 0x27: 39,
              0x22: 34}
